@@ -1,70 +1,158 @@
 (* C05 — every inbound stanza reaches the router exactly once; every <r/> is
-   answered; client concurrently, component in arrival order; totality (no item
-   sequence gets the loop stuck or crashes it: crecv/precv are total functions whose
-   every branch is exercised against the implementation by the correspondence). *)
-From Coq Require Import List ZArith NArith Bool.
+   answered; client concurrently, component in arrival order.
+
+   [items] is the list of top-level elements completely received before the loop had to stop,
+   over the alphabet of Model/Recv.v (the classes Client.recv / Component.recv distinguish); all
+   statements are for every such list, every starting count, every write-fault oracle [wf]
+   ([wf k]: the k-th write of the loop fails).
+
+   NOT a theorem here (harness only: crash journal, payloads nested 400 000 deep, unsolicited <a/>
+   without stream management, real scheduler, TCP-like stub / real WebSocket transport, read
+   segmentations): that no element makes the process panic (a total Coq function says nothing about
+   that); that the Go scheduler runs every spawned routing goroutine to its end; Go's own XML
+   tokenizer and the splitting of the bytes across reads (C05_framed composes C02's framing on
+   tokens and on the bytes xml.Marshal prints with the loop; [RecvFrame.item_of], the type switch
+   from packets to classes, is a definition of the model, on the Go side the harness reads the
+   class off the packet's Go type). *)
+From Coq Require Import List ZArith NArith Bool Permutation.
 From XV Require Import Lib.Sx Model.Recv Proofs.RecvP.
+From XV Require Model.Send.
+From XV Require Model.XmlTree Model.XmlLex Model.XmlBridge Model.Parser Model.RecvFrame Proofs.RecvFrameP.
 Import ListNotations.
 Open Scope N_scope.
 
-(* Client: for every history of inbound elements (any mix, any length), every
-   starting count, every write fault: the stanzas handed to the router are exactly
-   the stanzas completely received before the loop had to stop, each once
-   (the list is in spawn order; each is handed to its own goroutine). *)
-Theorem C05_client_stanzas_exactly_once : forall items inb nw wf,
-  filter is_stanza (routed (crecv inb nw wf items)) = filter is_stanza (processed nw wf items).
-Proof. exact crecv_stanzas_once. Qed.
-
-(* ... and nothing else is lost or invented: every processed element, stanza or not
-   (a stream error included), is handed to the router exactly once. *)
+(* Client: what is handed to the router, in the order of the hand-overs, is exactly the list of the
+   processed elements - every stanza and every other element (a stream error included) once, nothing
+   lost, nothing invented, nothing twice ... *)
 Theorem C05_client_routed_all : forall items inb nw wf,
-  routed (crecv inb nw wf items) = processed nw wf items.
+  routed (crecv inb nw wf items) = processed items.
 Proof. exact crecv_routed. Qed.
 
-(* every acknowledgement request processed is answered, in order: the answers the loop
-   writes or tries to write are exactly one per request, each with the right count; when
-   no write fails they are all written (a write that fails -- the connection is going
-   away -- does not end the loop: what was received before the loss is still processed) *)
-Theorem C05_acks_answered : forall items inb nw wf,
-  attempted (crecv inb nw wf items) = expected_answers inb (processed nw wf items) /\
-  length (expected_answers inb (processed nw wf items))
-    = length (filter is_r (processed nw wf items)) /\
-  answers (crecv inb nw None items) = attempted (crecv inb nw None items).
+(* ... where "processed" is pinned down independently of the loop: the longest prefix of the input
+   without an element the loop stops at (one NextPacket rejects; the server's closing tag); there is
+   exactly one such list, and neither the write faults nor the number of writes have a say in it. *)
+Theorem C05_processed_is_longest_prefix : forall items,
+  is_processed_prefix items (processed items) /\
+  forall p, is_processed_prefix items p -> p = processed items.
+Proof. intros items. split; [apply processed_is_prefix|apply processed_unique]. Qed.
+
+(* nothing completely received before a loss is dropped: a history without such an element is
+   processed entirely, whatever the faults *)
+Theorem C05_nothing_dropped_before_cut : forall items,
+  reaches_end items = true ->
+  (forall inb nw wf, routed (crecv inb nw wf items) = items) /\ routed (precv items) = items.
 Proof.
-  intros items inb nw wf. split; [apply crecv_answers|]. split; [|apply crecv_answers_written].
-  generalize (processed nw wf items) inb. clear.
-  induction l as [|i l IH]; intros inb; [reflexivity|].
-  destruct i; cbn [expected_answers filter is_r length]; rewrite ?IH; reflexivity.
+  intros items H. split; [intros inb nw wf; rewrite crecv_routed|rewrite precv_routed]; apply processed_all, H.
 Qed.
 
-(* Component: same, synchronously and therefore in arrival order. *)
-Theorem C05_component_in_order : forall items,
-  routed (precv items) = pprocessed items /\ all_sync (precv items) = true.
-Proof. intros items. split; [apply precv_routed|apply precv_sync]. Qed.
-
-(* nothing completely received before a loss is dropped: when the history has no
-   terminator, everything is processed *)
-Theorem C05_nothing_dropped_before_cut : forall items,
-  forallb (fun i => match i with IBad | IClose => false | _ => true end) items = true ->
-  processed 0 None items = items /\ pprocessed items = items.
+(* "concurrently for a client": every processed element except a stream error is handed to a goroutine of
+   its own (the loop does not wait for the handler); on the receive goroutine itself only stream errors
+   are routed *)
+Theorem C05_client_async : forall items inb nw wf,
+  routed_async (crecv inb nw wf items) = filter (fun i => negb (is_serr i)) (processed items) /\
+  routed_sync (crecv inb nw wf items) = filter is_serr (processed items) /\
+  (forall i, In (ARouteSync i) (crecv inb nw wf items) -> is_serr i = true).
 Proof.
-  induction items as [|i items IH]; intros H; [split; reflexivity|].
-  cbn [forallb] in H. apply andb_true_iff in H as [Hi H]. destruct (IH H) as [IH1 IH2].
-  assert (Hnw : forall nw, processed nw None items = items).
-  { clear -H. induction items as [|j items IHi]; intros nw; [reflexivity|].
-    cbn [forallb] in H. apply andb_true_iff in H as [Hj H].
-    destruct j; try discriminate; cbn [processed]; rewrite IHi; auto. }
-  destruct i; try discriminate; cbn [processed pprocessed]; rewrite ?Hnw, ?IH2; split; reflexivity.
+  intros items inb nw wf. destruct (crecv_async items inb nw wf) as [H1 H2].
+  split; [exact H1|]. split; [exact H2|]. intros i H. apply (crecv_sync_only_serr _ _ _ _ _ H).
+Qed.
+
+(* "all interleavings of the per-packet routing goroutines": each spawned goroutine is a one-step
+   program; whatever merge [w] of them the scheduler produces, the handlers see every such element
+   exactly once.  (That the scheduler does run each of them to its end is the Go runtime's part.) *)
+Theorem C05_any_schedule_once : forall items inb nw wf w,
+  Send.interleavings (map (fun i => [i]) (routed_async (crecv inb nw wf items))) w ->
+  Permutation w (filter (fun i => negb (is_serr i)) (processed items)).
+Proof. exact crecv_any_schedule. Qed.
+
+(* every acknowledgement request processed is answered, in order: one answer attempted per request, each
+   with the count held plus the stanzas before it; the transport takes exactly those whose write the fault
+   oracle spares (a write that fails - the connection is going away - does not end the loop: what was
+   received before the loss is still processed); with no fault all of them *)
+Theorem C05_acks_answered : forall items inb nw wf,
+  let tr := crecv inb nw wf items in
+  attempted tr = expected_answers inb (processed items) /\
+  length (attempted tr) = length (filter is_r (processed items)) /\
+  answers tr = written wf (S nw) (attempted tr) /\
+  ((forall k, wf k = false) -> answers tr = attempted tr).
+Proof. exact crecv_acks. Qed.
+
+(* the reachable fault: from some write on the connection takes nothing any more - the answers before it
+   arrive, none after it *)
+Theorem C05_acks_connection_going_away : forall items inb nw k,
+  (S nw <= k)%nat ->
+  answers (crecv inb nw (fault_from k) items)
+  = firstn (k - S nw) (attempted (crecv inb nw (fault_from k) items)).
+Proof. intros items inb nw k H. rewrite crecv_written. apply written_from, H. Qed.
+
+(* a stream error whose handler has taken the connection over (a StreamManager reconnecting from inside
+   it) behind [items]: the same for [items] and the stream error itself; what follows it on the old
+   connection is nobody's *)
+Theorem C05_handover_routed : forall t items inb nw wf,
+  routed (crecv_handover t inb nw wf items)
+  = processed items ++ (if reaches_end items then [IStreamError t] else []) /\
+  attempted (crecv_handover t inb nw wf items) = expected_answers inb (processed items).
+Proof. intros. split; [apply crecv_handover_routed|apply crecv_handover_answers]. Qed.
+
+(* Component: everything up to the first element the loop stops at, synchronously and therefore in
+   arrival order; a component (no stream management) answers no request *)
+Theorem C05_component_in_order : forall items,
+  routed (precv items) = processed items /\ all_sync (precv items) = true /\
+  attempted (precv items) = [].
+Proof.
+  intros items. split; [apply precv_routed|]. split; [apply precv_sync|apply precv_no_answers].
+Qed.
+
+(* "all sizes and contents", from the stream: for every list of top-level items (elements the switch nest of
+   NextPacket dispatches, with ARBITRARY trees as children under C02's hypotheses [top_ok], white space and
+   comments between them), the loop run on what NextPacket makes of their tokens hands the router exactly one
+   element per top-level element, of that element's class, in order, and answers the requests among them;
+   the same on the BYTES xml.Marshal prints for element trees (C01's printer and lexer, C02's bridge) *)
+Theorem C05_framed : forall reg tok idn,
+  (forall items inb nw wf,
+     forallb (Parser.top_ok reg tok) items = true ->
+     let tr := crecv inb nw wf (map (RecvFrame.item_of idn)
+                 (Parser.run_packets reg true tok (XmlTree.flatten_all items))) in
+     routed tr = map (RecvFrame.item_of idn) (Parser.pkts_of items) /\
+     attempted tr = expected_answers inb (map (RecvFrame.item_of idn) (Parser.pkts_of items))) /\
+  (forall es inb nw wf,
+     forallb XmlLex.wf_doc es = true ->
+     forallb (Parser.top_ok reg tok) (XmlBridge.bridge_trees es) = true ->
+     option_map (fun ts => routed (crecv inb nw wf (map (RecvFrame.item_of idn) (Parser.run_packets reg true tok ts))))
+                (XmlBridge.open_stream_tokens (XmlBridge.print_open_stream es))
+     = Some (map (RecvFrame.item_of idn) (Parser.pkts_of (XmlBridge.bridge_trees es)))).
+Proof.
+  intros reg tok idn. split.
+  - intros items inb nw wf H. destruct (RecvFrameP.crecv_tokens_eof reg tok idn items inb nw wf H) as (H1 & _ & _ & _ & _ & H2).
+    split; assumption.
+  - apply RecvFrameP.crecv_bytes_eof.
 Qed.
 
 Example C05_example :
-  routed (crecv 0 0 None [ISmA 1; IStanza KMsg 1; ISmR; IStanza KIq 2])
+  routed (crecv 0 0 no_fault [ISmA 1; IStanza KMsg 1; ISmR; IStanza KIq 2])
   = [ISmA 1; IStanza KMsg 1; ISmR; IStanza KIq 2]
-  /\ answers (crecv 0 0 None [ISmA 1; IStanza KMsg 1; ISmR; IStanza KIq 2]) = [1].
-Proof. split; reflexivity. Qed.
+  /\ answers (crecv 0 0 no_fault [ISmA 1; IStanza KMsg 1; ISmR; IStanza KIq 2]) = [1]
+  /\ answers (crecv 0 0 (fault_from 2) [ISmR; IStanza KMsg 1; ISmR; ISmR]) = [0]
+  /\ attempted (crecv 0 0 (fault_from 2) [ISmR; IStanza KMsg 1; ISmR; ISmR]) = [0; 1; 1]
+  /\ reaches_end [ISmA 1; IStanza KMsg 1; ISmR; IStanza KIq 2] = true.
+Proof. repeat split; reflexivity. Qed.
+(* a schedule other than the spawn order *)
+Example C05_schedule_example :
+  Send.interleavings (map (fun i => [i]) (routed_async (crecv 0 0 no_fault [IStanza KMsg 1; IStanza KMsg 2])))
+    [IStanza KMsg 2; IStanza KMsg 1].
+Proof.
+  cbn. apply (Send.il_pick [[IStanza KMsg 1]] (IStanza KMsg 2) [] []). cbn.
+  apply (Send.il_pick [] (IStanza KMsg 1) [] [[]]). cbn.
+  apply Send.il_done. repeat constructor.
+Qed.
 
-Print Assumptions C05_client_stanzas_exactly_once.
 Print Assumptions C05_client_routed_all.
-Print Assumptions C05_acks_answered.
-Print Assumptions C05_component_in_order.
+Print Assumptions C05_processed_is_longest_prefix.
 Print Assumptions C05_nothing_dropped_before_cut.
+Print Assumptions C05_client_async.
+Print Assumptions C05_any_schedule_once.
+Print Assumptions C05_acks_answered.
+Print Assumptions C05_acks_connection_going_away.
+Print Assumptions C05_handover_routed.
+Print Assumptions C05_component_in_order.
+Print Assumptions C05_framed.
